@@ -6,7 +6,7 @@ from typing import Any, Dict, Optional
 
 from vlib import codec_common as CC
 from vlib import frontend, refcodec
-from vlib.runner import Ctx, HarnessError, Violation, hyp_run, unpickle_b64
+from vlib.runner import Ctx, HarnessError, Violation, hyp_run, pickle_b64, unpickle_b64
 
 LEVEL = "exploration"
 RULE = (
@@ -15,7 +15,9 @@ RULE = (
     "boundary-biased in-range values of one struct; oracle decode(encode(v)) == v structurally with floats "
     "bit-for-bit (NaN as NaN). Non-trivial = the reference annotation of the encoding shows a float/str/"
     "dynamic array/optional starting at a bit offset != 0 mod 8, an enum field, a signed minimum, or a type "
-    "of container depth >= 2; distinct by sha1(schema text, struct, value)."
+    "of container depth >= 2; distinct by sha1(schema text, struct, value). One case in four is a history: the case, "
+    "1-3 same-named edited variants of its schema (other enum maxima, integer widths, field ids, declaration order) "
+    "with fresh values, then the original again, each schema object dropped before the next is loaded."
 )
 ASSUMPTIONS = [
     "enum field values are the enumerator's integer value",
@@ -29,6 +31,7 @@ FLOORS = {
     "signed_min": 0.02,
     "optional_some": 0.02,
     "nested_container": 0.02,
+    "after_same_named_variant": 0.03,
 }
 
 
@@ -77,29 +80,65 @@ def run_shard(ctx: Ctx) -> None:
     rec = ctx.rec
     n_values = 8
 
-    def body(case: Any) -> None:
-        s, name, vals = case
-        rec.frontend_attempts += 1
-        fcp, text, err = frontend.parse_schema(s)
-        if fcp is None:
-            rec.rejected_by_frontend += 1
-            return
-        for v in vals:
-            _data, classes, nt = CC.classify(s, name, v)
-            rec.eval()
-            rec.cls(*classes)
-            cj = CC.case_json(s, name, v)
-            if nt:
-                rec.nt([cj["schema_text"], name, cj["value"]])
-                rec.sample({"schema": text, "struct": name, "value": cj["value"], "classes": classes})
-            msg = check_value(fcp, s, name, v, ctx.known, rec)
-            if msg:
-                raise Violation(msg, cj)
+    def body(steps: Any) -> None:
+        import gc
 
-    hyp_run(ctx, CC.codec_case(ctx.tier, n_values), body, ctx.n(4000, 24000))
+        for k, (s, name, vals) in enumerate(steps):
+            rec.frontend_attempts += 1
+            fcp, text, err = frontend.parse_schema(s)
+            if fcp is None:
+                rec.rejected_by_frontend += 1
+                if k == 0:
+                    return
+                continue
+            for v in vals:
+                _data, classes, nt = CC.classify(s, name, v)
+                rec.eval()
+                rec.cls(*classes)
+                if k:
+                    rec.cls("after_same_named_variant")
+                cj = CC.case_json(s, name, v)
+                if nt:
+                    rec.nt([cj["schema_text"], name, cj["value"]])
+                    rec.sample({"schema": text, "struct": name, "value": cj["value"], "classes": classes,
+                                "schemas_loaded_before_in_this_history": k})
+                msg = check_value(fcp, s, name, v, ctx.known, rec)
+                if msg:
+                    if k:
+                        cj["history_pickle"] = pickle_b64(steps[: k + 1])
+                        msg = f"after {k} same-named schema(s) were used in this process: " + msg
+                    raise Violation(msg, cj)
+            # drop the schema object before the next one is loaded (an edited file re-loaded by a long-lived tool)
+            del fcp
+            gc.collect()
+
+    hyp_run(ctx, CC.codec_history(ctx.tier, n_values), body, ctx.n(4000, 24000))
+
+    def body_alt(c: Any) -> None:
+        steps, cycles = c
+        rec.cls("alternation_history")
+        body([steps[i % 2] for i in range(2 * cycles)])
+
+    hyp_run(ctx, CC.codec_alternation(ctx.tier), body_alt, ctx.n(48, 480), tag="alternate", shrink_cap=40)
 
 
 def replay(case: Dict[str, Any]) -> Optional[str]:
+    from vlib.runner import load_known
+
+    if case.get("history_pickle"):
+        import gc
+
+        for hs, hname, hvals in unpickle_b64(case["history_pickle"]):
+            fcp, _t, err = frontend.parse_schema(hs)
+            if fcp is None:
+                continue
+            for hv in hvals:
+                msg = check_value(fcp, hs, hname, hv, load_known("C01"))
+                if msg:
+                    return msg
+            del fcp
+            gc.collect()
+        return None
     s = unpickle_b64(case["schema_pickle"])
     v = unpickle_b64(case["value_pickle"])
     fcp, text, err = frontend.parse_schema(s)
